@@ -32,7 +32,7 @@ var classBytes = map[string][]string{
 	"dot": {"."}, "bslash": {"\\"}, "lparen": {"("}, "rparen": {")"}, "lbrack": {"["}, "rbrack": {"]"}, "lbrace": {"{"}, "rbrace": {"}"},
 	"hash": {"#"}, "at": {"@"}, "star": {"*"}, "slash": {"/"}, "lt": {"<"}, "gt": {">"}, "bang": {"!"}, "pipe": {"|"}, "eq": {"="},
 	"tilde": {"~"}, "caret": {"^"}, "dollar": {"$"}, "pct": {"%"}, "qmark": {"?"}, "colon": {":"}, "semi": {";"}, "comma": {","},
-	"amp": {"&"}, "btick": {"`"}, "nonascii": {"é", "†", "\U0001F600", " ", " "}, "nul": {"\x00"}, "del": {"\x7f"}, "ctrl": {"\x01", "\x0b"},
+	"amp": {"&"}, "btick": {"`"}, "nonascii": {"é", "†", "\U0001F600", " ", " ", "à", "х", "\u0085", "\ufeff"}, "nul": {"\x00"}, "del": {"\x7f"}, "ctrl": {"\x01", "\x0b"},
 	"bad": {"\xff", "\xc3", "\xe2\x80", "\xf0\x9f", "\x80"},
 	// multi-byte atoms that open or close constructs
 	"urlo": {"url(", "URL("}, "cdo": {"<!--"}, "cdc": {"-->"}, "cmto": {"/*"}, "cmtc": {"*/"}, "script": {"<script", "<SCRIPT>", "</script"},
